@@ -204,6 +204,17 @@ func checkRaw(c *NsxConfig) error {
 				"Must only define service where name has prefix 'Netspoc-raw': %s",
 				g.Id)
 		}
+		// Other types would be compared and marshaled as 'null'.
+		for _, e := range g.ServiceEntries {
+			switch e.ResourceType {
+			case "IPProtocolServiceEntry", "L4PortSetServiceEntry",
+				"ICMPTypeServiceEntry":
+			default:
+				return fmt.Errorf(
+					"Unsupported resource_type '%s' in service %s",
+					e.ResourceType, g.Id)
+			}
+		}
 	}
 	return nil
 }
